@@ -14,17 +14,32 @@ pub type G = Graph<i32, i32>;
 /// Weight encoding used in every trace: NaN (unweighted) is -1.
 pub const NAN_W: i64 = -1;
 
+thread_local! {
+    /// Weight divisor of the case being observed: a trace weight w stands for the real edge weight
+    /// w / WDIV (a power of two, so that scaling is exact).  The specification only has integers;
+    /// with WDIV = 2 the library sees weights such as 0.5 and 1.5 while the specification sees 1 and 3,
+    /// and the harness scales distances / closeness back before logging them.
+    static WDIV: std::cell::Cell<i64> = const { std::cell::Cell::new(1) };
+}
+pub fn wdiv() -> i64 {
+    WDIV.with(|c| c.get())
+}
+pub fn set_wdiv(d: i64) {
+    WDIV.with(|c| c.set(d.max(1)))
+}
+
 pub fn w_to_f(w: i64) -> f64 {
     if w == NAN_W {
         f64::NAN
     } else {
-        w as f64
+        w as f64 / wdiv() as f64
     }
 }
 
 /// f64 weight -> trace integer.  Non-integral / huge weights never occur in
 /// monitored traces; they are mapped to a value no specification weight equals.
 pub fn f_to_w(f: f64) -> i64 {
+    let f = f * wdiv() as f64;
     if f.is_nan() {
         NAN_W
     } else if f.is_finite() && f.fract() == 0.0 && f.abs() < 1.0e9 {
